@@ -1,0 +1,78 @@
+//go:build verif
+
+package shovel
+
+import (
+	"context"
+	"sync"
+	"time"
+
+	"github.com/indexsupply/shovel/shovel/config"
+	"github.com/jackc/pgx/v5/pgxpool"
+)
+
+// Hooks for the verification harness in /verif (build tag "verif").
+// Add-only: exported views of unexported declarations; no behaviour is changed.
+
+// VerifTaskInfo is the configuration a loaded task ended up with.
+type VerifTaskInfo struct {
+	Src, IG      string
+	Start, Stop  uint64
+	Batch, Conc  int
+	Poll         time.Duration
+	ChainID      uint64
+	Dependencies []string
+}
+
+// VerifLoadTasks runs loadTasks and describes the result.
+func VerifLoadTasks(ctx context.Context, pgp *pgxpool.Pool, c config.Root) ([]VerifTaskInfo, error) {
+	tasks, err := loadTasks(ctx, pgp, c)
+	if err != nil {
+		return nil, err
+	}
+	var res []VerifTaskInfo
+	for _, t := range tasks {
+		res = append(res, VerifTaskInfo{
+			Src: t.srcName, IG: t.destConfig.Name, Start: t.start, Stop: t.stop,
+			Batch: t.batchSize, Conc: t.concurrency, Poll: t.pollDuration, ChainID: t.srcChainID,
+			Dependencies: t.destConfig.Dependencies,
+		})
+	}
+	return res, nil
+}
+
+// VerifEvent is one manager event: a generation began, a runner started or stopped.
+type VerifEvent struct {
+	Kind    string // run-begin | task-start | task-stop | run-end
+	Gen     uint64
+	Src, IG string
+	At      time.Time
+}
+
+var (
+	verifMut    sync.Mutex
+	verifEvents []VerifEvent
+	verifGen    uint64
+)
+
+func verifTrace(kind string, t *Task) {
+	verifMut.Lock()
+	defer verifMut.Unlock()
+	if kind == "run-begin" {
+		verifGen++
+	}
+	ev := VerifEvent{Kind: kind, Gen: verifGen, At: time.Now()}
+	if t != nil {
+		ev.Src, ev.IG = t.srcName, t.destConfig.Name
+	}
+	verifEvents = append(verifEvents, ev)
+}
+
+// VerifEvents returns and clears the recorded manager events.
+func VerifEvents() []VerifEvent {
+	verifMut.Lock()
+	defer verifMut.Unlock()
+	res := verifEvents
+	verifEvents = nil
+	return res
+}
